@@ -32,7 +32,7 @@ def run(ctx):
         length = rng.choice([1, 2, 3, 5, 8, 12, 20, 30])
         prog = CU.rand_program(rng, N, length)
         klass = rng.choice(['CliffordCircuit', 'Circuit'])
-        conf = rng.choice(['plain', 'plain', 'layers', 'compiled', 'copy', 'copy-compiled', 'composed', 'composed-compiled'])
+        conf = rng.choice(['plain', 'plain', 'layers', 'compiled', 'copy', 'copy-compiled', 'composed', 'composed-compiled', 'recompiled', 'recompiled'])
         ctx.count('class=' + klass); ctx.count('conf=' + conf); ctx.count('N=%d' % N)
         Ps = [G.rand_op(rng, N) for _ in range(4)] + G.id_map_ops(N)
         rows, r = G.rand_tableau(rng, N)
@@ -52,6 +52,20 @@ def run(ctx):
                     c2.take(CU.impl_gate(impl, d)); CU.model_take(ctx.drv, a + 'b', d)
                 circ = c1.compose(c2)
                 ctx.drv.ask('circ %s compose %sb' % (a, a))
+            elif conf == 'recompiled':
+                # compile (whole circuit or layer by layer), keep adding gates, compile again: the second compilation must see the new gates
+                circ = mk()
+                k = rng.randrange(0, length + 1)
+                for d in prog[:k]:
+                    circ.take(CU.impl_gate(impl, d)); CU.model_take(ctx.drv, a, d)
+                if rng.random() < 0.5:
+                    circ.compile(); ctx.drv.ask('circ %s compile' % a)
+                else:
+                    for layer in circ.layers_forward():
+                        layer.compile(N)
+                    ctx.drv.ask('circ %s compile' % a)
+                for d in prog[k:]:
+                    circ.take(CU.impl_gate(impl, d)); CU.model_take(ctx.drv, a, d)
             else:
                 circ = mk()
                 for d in prog:
@@ -60,7 +74,7 @@ def run(ctx):
             lay = CU.impl_layers(circ)
             ml = ctx.drv.ask('circ %s layers' % a)
             ctx.count('corr:layers')
-            if ml != lay:
+            if ml.replace('Gc', 'G') != lay.replace('Gc', 'G'):
                 ctx.mismatch('take', 'program of %d gates' % length, ml, lay, dict(rep=rep))
             if 'copy' in conf and klass == 'CliffordCircuit':
                 orig = circ
@@ -73,6 +87,8 @@ def run(ctx):
                     layer.compile(N)
                 # model: compile then drop the circuit-level maps is not available; compare only against the oracle
                 a = None
+            if conf == 'recompiled':
+                lay = CU.impl_layers(circ)
             if conf.endswith('compiled'):
                 circ.compile()
                 ctx.drv.ask('circ %s compile' % a)
